@@ -604,14 +604,9 @@ def _param_sides(ctx, c):
         for x in walk_shallow(fn.node):
             if isinstance(x, ast.For) and any(isinstance(y, ast.Call) and isinstance(y.func, ast.Attribute) and y.func.attr == meth
                                               for y in ast.walk(x)):
-                it = x.iter
-                sig = U(it)
-                # expand local names used in the iterable (prefs = [...])
-                for nm in {n.id for n in ast.walk(it) if isinstance(n, ast.Name)}:
-                    ds = [d for d in local_defs(fn, nm) if not isinstance(d, tuple)]
-                    if len(ds) == 1:
-                        sig += f" where {nm} = {U(ds[0])}"
-                out.append(sig)
+                # local names used in the iterable (prefs = [...]) are expanded, bound names numbered
+                from ..engine import canon_text
+                out.append(canon_text(fn, x.iter))
         return sorted(out)
 
     def is_prefix_key(e):
